@@ -37,6 +37,12 @@ TEXT_FAULTS = [
     ("slot_reference_out_of_range_constraint", "sub", "cA > cB / _ {@7.user1 == 1};", "cA > cB / _ {@1.user1 == 1};", "", "", {"2140"}),
     ("movement_attr_in_substitution", "sub", "cA > cB {shift.x = 5};", "cA > cB {user1 = 5};", "", "", {"3121"}),
     ("advance_in_substitution", "sub", "cA > cB {advance.x = 5};", "cA > cB {user1 = 5};", "", "", {"3121"}),
+    # tests that an `if` may not make (only features and the processing state), around rules and around whole passes
+    ("glyph_attr_test_in_if_around_rules", "sub", "if (mark == 1) cA > cB; endif;", "if (f1 == on) cA > cB; endif;", "cM = glyphid(3) {mark = 1};", "cM = glyphid(3) {mark = 1};", {"2121"}),
+    ("glyph_attr_test_in_if_around_passes", "sub", "if (mark == 1) pass(1) cA > cB; endpass; endif;", "if (f1 == on) pass(1) cA > cB; endpass; endif;",
+     "cM = glyphid(3) {mark = 1};", "cM = glyphid(3) {mark = 1};", {"2121"}),
+    ("slot_ref_test_in_if_around_passes", "sub", "if (@1.mark == 1) pass(1) cA > cB; endpass; pass(2) cB > cA; endpass; endif;",
+     "if (f1 == on) pass(1) cA > cB; endpass; pass(2) cB > cA; endpass; endif;", "cM = glyphid(3) {mark = 1};", "cM = glyphid(3) {mark = 1};", {"2121", "2122"}),
     ("readonly_attr_collision_fix_x", "pos", "cA cB {collision.fix.x = 100m};", "cA cB {shift.x = 100m};", "", "", {"3120"}),
     ("readonly_attr_collision_fix_y_plus", "pos", "cA cB {collision {fix {y += 5m}}};", "cA cB {shift {y += 5m}};", "", "", {"3120"}),
     ("glyph_metric_as_target", "pos", "cA {advancewidth = 5};", "cA {advance.x = 5};", "", "", {"1165"}),
